@@ -277,6 +277,15 @@ def applyEdit (p : Param) (slot : String) (v : LJson) : Except String Param := d
       pure { b with incLo := ← a[0]!.getBool?, incHi := ← a[1]!.getBool? }
     | s => throw s!"unsupported edit {s}"
   match slot with
+  | "item_type" =>
+    -- `p.item_type = …` on an existing List Parameter (both old and new non-None)
+    match p.cfg with
+    | .list (some _) lo hi => pure { p with cfg := .list (some (← parseSpec v)) lo hi }
+    | _ => throw "item_type edit: a List with an item type expected"
+  | "default" =>
+    -- a plain value assigned on a class (`B.x = v`): the class's Parameter gets the new default;
+    -- `allow_None` was fixed when the Parameter was constructed and does not follow
+    pure { p with allowNone := (if p.effAllowNone then .yes else p.allowNone), default := some (← parseVal v) }
   | "allow_None" =>
     -- the attribute is assigned directly; only `True` is modelled
     if (← v.getBool?) then pure { p with allowNone := .yes } else throw "allow_None edit: only True"
@@ -288,10 +297,19 @@ def applyEdit (p : Param) (slot : String) (v : LJson) : Except String Param := d
     | _ => throw "bounds edit on a parameter without bounds"
 
 /-- the state of the case: declared parameters paired with their current values
-(class level: the effective defaults).  Instance level: `edits` are applied to the instance's
-Parameter objects after construction, then the `final` values are assigned. -/
+(class level: the effective defaults).  `edits` are applied to the Parameter objects the object
+reads (the instance's own, or those of the class / of an ancestor class it inherits from) after
+construction; instance level: then the `final` values are assigned. -/
 def parseState (case : LJson) : Except String (List (Param × PyVal)) := do
-  let ps ← (← getArr case "params").toList.mapM parseParam
+  let ps0 ← (← getArr case "params").toList.mapM parseParam
+  let edits ← match getOpt case "edits" with
+    | none => pure []
+    | some e => (← e.getArr?).toList.mapM fun x => do
+      let q ← x.getArr?
+      if q.size != 3 then throw "edit: triple expected"
+      pure (← q[0]!.getStr?, ← q[1]!.getStr?, q[2]!)
+  let ps ← ps0.mapM fun p =>
+    (edits.filter (·.1 == p.name)).foldlM (fun acc (_, slot, val) => applyEdit acc slot val) p
   match ← getStr case "level" with
   | "class" =>
     -- the class attribute `name` is the class name, every other value is the effective default
@@ -304,21 +322,13 @@ def parseState (case : LJson) : Except String (List (Param × PyVal)) := do
   | _ =>
     let vs ← (← getArr case "values").toList.mapM parseVal
     if vs.length != ps.length then throw "values: one per parameter expected"
-    let edits ← match getOpt case "edits" with
-      | none => pure []
-      | some e => (← e.getArr?).toList.mapM fun x => do
-        let q ← x.getArr?
-        if q.size != 3 then throw "edit: triple expected"
-        pure (← q[0]!.getStr?, ← q[1]!.getStr?, q[2]!)
     let finals ← match getOpt case "final" with
       | none => pure []
       | some f => parseNamed parseVal f
-    (ps.zip vs).mapM fun (p, v) => do
-      let p' ← (edits.filter (·.1 == p.name)).foldlM (fun acc (_, slot, val) => applyEdit acc slot val) p
-      let v' := match finals.find? (·.1 == p.name) with
-        | some (_, w) => w
-        | none => v
-      pure (p', v')
+    return (ps.zip vs).map fun (p, v) =>
+      match finals.find? (·.1 == p.name) with
+      | some (_, w) => (p, w)
+      | none => (p, v)
 
 def parseSubset (case : LJson) : Except String (Option (List String)) :=
   match getOpt case "subset" with
